@@ -26,7 +26,7 @@ import (
 var (
 	xMACs = []net.HardwareAddr{{2, 0, 0, 0, 1, 1}, {2, 0, 0, 0, 1, 2}, {2, 0, 0, 0, 1, 3}}
 	xIPs  = []net.IP{net.IPv4(10, 1, 0, 1).To4(), net.IPv4(10, 1, 0, 2).To4(), net.IPv4(10, 1, 0, 3).To4()}
-	xEnts = []string{"e1", "e2", "e3"}
+	xEnts = []string{"olt-1/0/3:100 a.b", "3:100 a.b", "olt-1/0"} // structured ids: see C12 subIDs (no ( ) , in ids)
 )
 
 // adapter: one real indexed store.
